@@ -1,0 +1,57 @@
+//! Verification hooks: compiled only with `--cfg bpaf_verif`, never part of a normal build.
+//!
+//! Every hook records one event - the action taken on the consumption ledger together with a
+//! snapshot of the `State` it was taken on - into a thread local sink that a test harness
+//! turns on with [`start`] and collects with [`take`].
+use crate::args::State;
+use std::cell::RefCell;
+
+thread_local! {
+    static SINK: RefCell<Option<Vec<String>>> = RefCell::new(None);
+}
+
+/// Start recording events on this thread
+pub fn start() {
+    SINK.with(|s| *s.borrow_mut() = Some(Vec::new()));
+}
+
+/// Stop recording and return recorded events, one JSON object per item
+pub fn take() -> Vec<String> {
+    SINK.with(|s| s.borrow_mut().take().unwrap_or_default())
+}
+
+pub(crate) fn enabled() -> bool {
+    SINK.with(|s| s.borrow().is_some())
+}
+
+pub(crate) fn emit(event: String) {
+    SINK.with(|s| {
+        if let Some(v) = s.borrow_mut().as_mut() {
+            v.push(event);
+        }
+    });
+}
+
+/// `"led":[..],"lo":..,"hi":..,"rem":..,"depth":..` of a state
+pub(crate) fn snap(state: &State) -> String {
+    state.verif_snap()
+}
+
+/// event that carries only the name and the snapshot
+pub(crate) fn ev(name: &str, state: &State) {
+    if enabled() {
+        emit(format!("{{\"e\":\"{}\",{}}}", name, snap(state)));
+    }
+}
+
+/// event with extra raw JSON fields (`extra` is `"k":v,...` without braces)
+pub(crate) fn evx(name: &str, state: &State, extra: &str) {
+    if enabled() {
+        emit(format!("{{\"e\":\"{}\",{},{}}}", name, extra, snap(state)));
+    }
+}
+
+/// snapshot as a nested object, for events that mention several states
+pub(crate) fn obj(state: &State) -> String {
+    format!("{{{}}}", snap(state))
+}
